@@ -47,3 +47,4 @@ UNITS = [ConstantTrajectory()]
 CALLEES = []
 NOT_DECIDED = ["ConstantPredictionAlgorithm._get_feature_values and the LME personalisation (numpy / statsmodels): bounded stand-in only"]
 ASSUMPTIONS = ["torch.tensor(nested list) builds the tensor row by row"]
+LEVEL = "exploration"   # the property is decided mainly by the bounded stand-in (numpy / statsmodels code)
